@@ -517,9 +517,11 @@ func c15RunCase(raw json.RawMessage) (res Result, err error) {
 			}
 		}
 	}
-	res.InDomain = namesOK && descrOK && countOK && idxOK
+	// names and column count are no longer guards: since the fixes d005c52 / e807cb3 in /repo an unstorable
+	// schema is refused at creation
+	res.InDomain = descrOK && idxOK
 	if obs.CreateCode != 0 {
-		res.InDomain = namesOK && descrOK && countOK // k_writes is empty in the Coq case
+		res.InDomain = descrOK // k_writes is empty in the Coq case
 	}
 
 	// ---- property oracle: the schema reported after the restart is the schema created, or creation was refused ----
@@ -559,15 +561,8 @@ func c15RunCase(raw json.RawMessage) (res Result, err error) {
 			res.Holds, res.Detail = false, fmt.Sprintf("record length/element count changed: %d/%d, created %d/%d", g.RecLen, g.NElems, c.RecLen, c.NElems)
 		}
 	}
-	if !res.Holds {
-		switch {
-		case !countOK:
-			res.Class = "too-many-elements"
-		case !namesOK:
-			res.Class = "unstorable-column-name"
-		case jan1:
-			res.Class = "daily-jan1-write"
-		}
+	if !res.Holds && namesOK && countOK && jan1 && obs.CreateCode == 0 {
+		res.Class = "daily-jan1-write" // the only known finding class left (names / column count are fixed in /repo)
 	}
 	// ---- tags ----
 	res.Tags = []string{"tf:" + in.TF, fmt.Sprintf("create=%d", obs.CreateCode), fmt.Sprintf("reload=%d", obs.ReloadCode),
@@ -585,7 +580,7 @@ func c15RunCase(raw json.RawMessage) (res Result, err error) {
 	if hdrChanged {
 		res.Tags = append(res.Tags, "header-bytes-changed-by-write")
 	}
-	res.Nontrivial = res.InDomain && nElems >= 2 && len(obs.Writes) >= 1
+	res.Nontrivial = res.InDomain && namesOK && countOK && nElems >= 2 && len(obs.Writes) >= 1
 	res.Key = string(raw)
 	return res, nil
 }
@@ -598,7 +593,7 @@ func init() {
 		Rule: "schemas: timeframe 1Min/5Min/15Min/1H/1D (35% forced 1D), 25% variable, year 1990-2034, 0-8 columns over the 12 fixed-width types " +
 			"(40% clean; otherwise names of boundary length 30-34, long, NUL at an edge, empty, multi-byte, 'Epoch', 7% 57-64 string16 columns, " +
 			"3% 1021-1027 columns), descriptions around 256 bytes; 0-4 single-record writes through Writer.WriteRecords + WAL flush at random " +
-			"instants of the file's year, 30% on Jan 1, 10% in the last hour; distinct = distinct input JSON; non-trivial = inside the " +
+			"instants of the file's year, 30% on Jan 1, 10% in the last hour; distinct = distinct input JSON; non-trivial = storable schema inside the " +
 			"theorem's guard with >=2 elements and >=1 write",
 		Gen: c15Gen,
 		Run: c15RunCase,
